@@ -40,6 +40,17 @@ GEOM_NOTE = ("Trusted: Coq kernel; extraction + float64 shim; harness/driver tra
              "cos/sin of the angles are values supplied by libm (premises).")
 
 CLAIMS = {
+    "C04": dict(
+        engine="geom", design_ref="DESIGN.md section 4 C04",
+        technique="Coq proof over the reals for all sites/cells (closure table decided by vm_compute, lifted by a general lemma) + model/impl comparison + monitor with an independent table",
+        text="Theorem (reals; all 7 groups, all site coordinates, ANY 2x2 site matrix, all cells of the group's family): each "
+             "operation a, written in Cartesian space as x -> L_a x + C t_a, is orthogonal, and composed with placement b equals "
+             "placement c (= a o b in the group) translated by n A + m B for integers n, m - same linear part (orientation, "
+             "handedness), same position modulo the lattice.  Outside the family the mirror defect is exactly 2 b cos(angle) y. "
+             "Hard and LJ states share the modelled positions code.  Preservation under optimisation rests on C08 (an "
+             "orthorhombic cell has no angle handle).",
+        note=GEOM_NOTE + "  The operations in the theorem are those of model/Spec.v; C16 (re-checked in this check) proves the "
+             "regenerated tables equal to them."),
     "C14": dict(
         engine="geom", design_ref="DESIGN.md section 4 C14",
         technique="Coq proofs over the reals (ring/field, induction over the index ranges) + bit-exact model/impl comparison",
@@ -127,4 +138,4 @@ CLAIMS = {
 
 _NOT_YET = "not claimed yet: the model/theorems/engine for this property are still being built (see DESIGN.md section 7)"
 NOT_APPLICABLE = {p: _NOT_YET for p in
-                  ["C01", "C02", "C03", "C04", "C08", "C09", "C10", "C11", "C12", "C13"]}
+                  ["C01", "C02", "C03", "C08", "C09", "C10", "C11", "C12", "C13"]}
